@@ -150,6 +150,49 @@ func replay(r *hx.Run, lines []string) {
 			obs := wm.arrivePushWait(t, m, u, thr)
 			runtime.GOMAXPROCS(prev)
 			r.Line(fmt.Sprintf("wq %s %s %s %s | %s", f[1], f[2], f[3], f[4], obs), "ok")
+		case "wu":
+			// wu T0 op [arg] / T1 op [arg] / … | obs
+			var as []arrival
+			okq := wm != nil && wm.m.kind() == "counter"
+			cur := []string{}
+			flush := func() {
+				if len(cur) >= 2 {
+					t, _ := strconv.Atoi(cur[0])
+					a := arrival{t: t, op: cur[1]}
+					if len(cur) > 2 {
+						a.arg = cur[2]
+					}
+					okq = okq && t < len(wm.actors) && wm.pending[t] == nil && wm.actors[t].state.Load() == stIdle
+					as = append(as, a)
+				}
+				cur = cur[:0]
+			}
+			for _, tok := range f[1:] {
+				if tok == "|" {
+					break
+				}
+				if tok == "/" {
+					if okq {
+						flush()
+					}
+
+					continue
+				}
+				cur = append(cur, tok)
+			}
+			if okq {
+				flush()
+			}
+			if !okq || len(as) < 2 {
+				r.Line(l, "not-applicable")
+
+				continue
+			}
+			toks := make([]string, len(as))
+			for i, a := range as {
+				toks[i] = fmt.Sprintf("%d %s", a.t, opLine(a))
+			}
+			r.Line(fmt.Sprintf("wu %s | %s", strings.Join(toks, " / "), wm.arriveQueued(as[0], as[1:])), "ok")
 		case "seq":
 			var ans string
 			if f[1] == "sm" {
@@ -280,6 +323,10 @@ func corpus(r *hx.Run) {
 	seqCase(r, "dagc", []string{"unlock:1", "lock:1"})                     // Unlock's lookup panic releases d.Mutex first: Lock(1) is granted
 	gapCorpus(r)
 	extremeCounterCorpus(r)
+	// Set(5) holds the value lock in its subscriber callback while Set(30), WaitIsBelow(30) and Update(-1) queue up: the
+	// Update passes last, 30 -> 29, and has to wake the sleeper although 29 is above the value it saw before the lock
+	queuedCase(r, r.Rng, 0, []arrival{{t: 0, op: "set", arg: "5"}, {t: 1, op: "set", arg: "30"}, {t: 2, op: "below", arg: "30"}, {t: 3, op: "add", arg: "-1"}})
+	queuedCase(r, r.Rng, 0, []arrival{{t: 0, op: "set", arg: "5"}, {t: 1, op: "set", arg: "-30"}, {t: 2, op: "above", arg: "-30"}, {t: 3, op: "add", arg: "1"}})
 	dg := func(n, e int, as ...arrival) { runDagCase(r, 0, n, e, as, 3, false) }
 	dg(3, 3, arrival{0, "lock", "0"}, arrival{1, "lock", "1"}, arrival{2, "rlock", "0,1"}, arrival{0, "unlock", "0"}, arrival{1, "unlock", "1"}) // the example of dagmutex.go
 	dg(3, 2, arrival{0, "rlock", "0,1"}, arrival{1, "lock", "1"}, arrival{2, "rlock", "1"}, arrival{0, "runlock", "1,0"})
@@ -321,7 +368,7 @@ func main() {
 	// (3) panic matrix: exhaustive over short sequential histories
 	enumSeq(r, "sm", []string{"lock", "unlock", "rlock", "runlock"}, 4)
 	enumSeq(r, "dag", []string{"lock:1", "unlock:1", "rlock:1", "runlock:1", "rlock:1,2", "runlock:1,2", "runlock:2", "unlock:2"}, 3)
-	enumSeq(r, "dagc", []string{"lock:1", "unlock:1", "rlock:1", "runlock:1", "rlock:1,2", "runlock:1,2", "runlock:2", "unlock:2"}, 3)
+	enumSeq(r, "dagc", []string{"lock:1", "unlock:1", "rlock:1", "runlock:1", "rlock:1,2", "runlock:1,2", "runlock:2", "unlock:2", "runlock:1,1"}, 3)
 	tSeq := time.Since(t0)
 	// (1) arrival orders
 	thorough := r.Tier == "thorough"
@@ -366,6 +413,12 @@ func main() {
 			rng, sub := r.Rng.Fork()
 			pushWaitCase(r, rng, sub, procs)
 		}
+	}
+	// calls queued on the Counter's value lock behind a subscriber callback (everything a call does before taking the
+	// lock happens while the value is still the old one)
+	for i := 0; i < 400*r.Scale/quickDiv(r) && !giveUp(); i++ {
+		rng, sub := r.Rng.Fork()
+		queuedCase(r, rng, sub, nil)
 	}
 	tArr := time.Since(t0)
 	// (2) stress
